@@ -1,17 +1,38 @@
-//! spike: do the types compile
+//! C10 (sequential part) - aggregation conserves inputs: every merged entry is in exactly one
+//! emitted aggregate, selected by its key.
+//!
+//! Explicit-state search: EVERY input sequence up to a bound (keys x payloads) x EVERY subset of
+//! flush points between the inputs (plus a final flush) is replayed on the REAL aggregation sinks
+//! (embedded `Aggregate`, `KeyedAggregator` with four key strategies, `MutexSink`, `TeeSink`,
+//! `WorkerSink` driven from one thread, merge-on-drop guards dropped in every order) and what the
+//! downstream sink receives at each flush is compared with a reference fold written from the
+//! property statement. (The thread-interleaving part for `WorkerSink` runs under loom in vh-sched.)
 use metrique::CloseValue;
 use metrique::unit_of_work::metrics;
 use metrique::writer::value::ToString;
 use metrique_aggregation::aggregate;
-use metrique_aggregation::aggregator::{Aggregate, KeyedAggregator};
+use metrique_aggregation::aggregator::{Aggregate, AggregatedEntry, KeyedAggregator};
 use metrique_aggregation::histogram::{Histogram, SortAndMerge};
-use metrique_aggregation::sink::{MutexSink, TeeSink, WorkerSink, non_aggregate};
+use metrique_aggregation::sink::{CloseAndMergeOnDrop, MergeOnDrop, MutexSink, TeeSink, WorkerSink, non_aggregate};
 use metrique_aggregation::traits::{AggregateSink, AggregateSinkRef, AggregateStrategy, FlushableSink, Key, RootSink};
 use metrique_aggregation::value::{Distribution, Flatten, KeepLast, Sum};
-use metrique_writer::test_util::{test_entry_sink, test_metric};
+use metrique_writer::sink::VecEntrySink;
+use metrique_writer::test_util::{Inspector, TestEntry, test_entry_sink, test_metric, to_test_entry};
+use metrique_writer::{Observation, Value, ValueWriter};
+use serde_json::{Value as Json, json};
 use std::borrow::Cow;
+use std::collections::hash_map::DefaultHasher;
+use std::collections::{BTreeMap, HashSet};
 use std::hash::{Hash, Hasher};
+use std::time::Duration;
+use vh_common::report::Violations;
+use vh_common::{Report, par};
 
+// ---------------------------------------------------------------------------------------------
+// entry types, all built with the real #[aggregate] + #[metrics] macros
+// ---------------------------------------------------------------------------------------------
+
+/// entry mode + `ref`, owned `String` key, Sum + Histogram<_, SortAndMerge> + KeepLast
 #[aggregate(ref)]
 #[metrics]
 pub struct Rec {
@@ -25,15 +46,56 @@ pub struct Rec {
     last: u64,
 }
 
+/// hand-written borrowed-key form over the same closed entry: the lookup key borrows a `&str`
+/// out of the source (`Cow::Borrowed`), the stored key owns it (`Cow::Owned`); only the derived
+/// `Hash` (equal for both forms) and `static_key_matches` connect the two
+#[derive(Clone, Hash, PartialEq, Eq)]
+#[metrics]
+pub struct StrKey<'a> {
+    name: Cow<'a, str>,
+}
+pub struct StrKeyExtractor;
+impl Key<RecEntry> for StrKeyExtractor {
+    type Key<'a> = StrKey<'a>;
+    fn from_source(source: &RecEntry) -> Self::Key<'_> {
+        #[allow(deprecated)]
+        StrKey { name: Cow::Borrowed(source.name.as_str()) }
+    }
+    fn static_key<'a>(key: &Self::Key<'a>) -> Self::Key<'static> {
+        StrKey { name: Cow::Owned(key.name.clone().into_owned()) }
+    }
+    fn static_key_matches<'a>(owned: &Self::Key<'static>, borrowed: &Self::Key<'a>) -> bool {
+        owned == borrowed
+    }
+}
+pub struct ByStr;
+impl AggregateStrategy for ByStr {
+    type Source = RecEntry;
+    type Key = StrKeyExtractor;
+}
+
+/// a key value whose `Hash` is deliberately CONSTANT: all keys land in the same hash bucket chain
+/// and only `static_key_matches` / `Eq` separates them
 #[derive(Clone, PartialEq, Eq, Debug)]
-#[metrics(value)]
 pub struct CName(String);
 impl Hash for CName {
     fn hash<H: Hasher>(&self, state: &mut H) {
         state.write_u64(0xC10);
     }
 }
+impl CloseValue for CName {
+    type Closed = CName;
+    fn close(self) -> CName {
+        self
+    }
+}
+impl Value for CName {
+    fn write(&self, writer: impl ValueWriter) {
+        writer.string(&self.0)
+    }
+}
 
+/// entry mode + `ref`, constant-hash key through the macro-generated Key impl, `Distribution`
 #[aggregate(ref)]
 #[metrics]
 pub struct Coll {
@@ -47,11 +109,1207 @@ pub struct Coll {
     last: u64,
 }
 
+/// hand-written constant-hash key over `RecEntry` (second tee branch / second worker branch)
+#[derive(Clone, PartialEq, Eq)]
+#[metrics]
+pub struct CollideKey<'a> {
+    name: Cow<'a, str>,
+}
+impl Hash for CollideKey<'_> {
+    fn hash<H: Hasher>(&self, state: &mut H) {
+        state.write_u8(7);
+    }
+}
+pub struct CollideKeyExtractor;
+impl Key<RecEntry> for CollideKeyExtractor {
+    type Key<'a> = CollideKey<'a>;
+    fn from_source(source: &RecEntry) -> Self::Key<'_> {
+        #[allow(deprecated)]
+        CollideKey { name: Cow::Borrowed(source.name.as_str()) }
+    }
+    fn static_key<'a>(key: &Self::Key<'a>) -> Self::Key<'static> {
+        CollideKey { name: Cow::Owned(key.name.clone().into_owned()) }
+    }
+    fn static_key_matches<'a>(owned: &Self::Key<'static>, borrowed: &Self::Key<'a>) -> bool {
+        owned == borrowed
+    }
+}
+pub struct ByCollide;
+impl AggregateStrategy for ByCollide {
+    type Source = RecEntry;
+    type Key = CollideKeyExtractor;
+}
+
+#[aggregate]
+#[metrics]
+pub struct Inner {
+    #[aggregate(strategy = Sum)]
+    inner_count: u64,
+}
+
+/// entry mode, no key (embedded / mutex), with `Flatten`
+#[aggregate]
+#[metrics]
+pub struct Flat {
+    #[aggregate(strategy = Sum)]
+    total: u64,
+    #[aggregate(strategy = Distribution)]
+    obs: u64,
+    #[aggregate(strategy = KeepLast)]
+    last: u64,
+    #[aggregate(strategy = Flatten)]
+    #[metrics(flatten)]
+    inner: Inner,
+}
+
+/// entry mode + `ref`, no key: `Aggregate::insert_and_send_to`
+#[aggregate(ref)]
+#[metrics]
+pub struct Plain {
+    #[aggregate(strategy = Sum)]
+    total: u64,
+    #[aggregate(strategy = Histogram<u64, SortAndMerge>)]
+    obs: u64,
+    #[aggregate(strategy = KeepLast)]
+    last: u64,
+}
+
+#[aggregate(direct)]
+#[metrics]
+pub struct InnerD {
+    #[aggregate(strategy = Sum)]
+    inner_count: u64,
+}
+
+/// direct mode (the struct itself is merged), TWO key fields, with `Flatten`
+#[aggregate(direct)]
+#[metrics]
+pub struct Direct {
+    #[aggregate(key)]
+    name: String,
+    #[aggregate(key)]
+    #[metrics(format = ToString)]
+    shard: u8,
+    #[aggregate(strategy = Sum)]
+    total: u64,
+    #[aggregate(strategy = Distribution)]
+    obs: u64,
+    #[aggregate(strategy = KeepLast)]
+    last: u64,
+    #[aggregate(strategy = Flatten)]
+    #[metrics(flatten)]
+    inner: InnerD,
+}
+
+#[metrics]
+struct Parent {
+    #[metrics(flatten)]
+    agg: Aggregate<Flat>,
+    id: &'static str,
+}
+#[metrics]
+struct ParentPlain {
+    #[metrics(flatten)]
+    agg: Aggregate<Plain>,
+    id: &'static str,
+}
+#[metrics]
+struct ParentMx {
+    #[metrics(flatten)]
+    agg: MutexSink<Aggregate<Flat>>,
+    id: &'static str,
+}
+
+// ---------------------------------------------------------------------------------------------
+// input alphabet
+// ---------------------------------------------------------------------------------------------
+
+#[derive(Clone, Copy)]
+struct Payload {
+    total: u64,
+    obs: u64,
+    last: u64,
+    inner: u64,
+}
+/// payload 0 and 2 share the observation value (duplicates must be kept by count)
+const PAYLOADS: [Payload; 3] = [
+    Payload { total: 1, obs: 5, last: 100, inner: 1 },
+    Payload { total: 2, obs: 7, last: 200, inner: 10 },
+    Payload { total: 4, obs: 5, last: 300, inner: 100 },
+];
+/// "a" is a prefix of "ab"
+const NAMES: [&str; 3] = ["a", "b", "ab"];
+/// two-field keys: the first two share the name, the first and third share the shard
+const NAME_SHARD: [(&str, u8); 3] = [("a", 0), ("a", 1), ("b", 0)];
+
+fn rec(k: usize, p: usize) -> Rec {
+    let p = PAYLOADS[p];
+    Rec { name: NAMES[k].to_string(), total: p.total, obs: p.obs, last: p.last }
+}
+fn coll(k: usize, p: usize) -> Coll {
+    let p = PAYLOADS[p];
+    Coll { name: CName(NAMES[k].to_string()), total: p.total, obs: p.obs, last: p.last }
+}
+fn flat(p: usize) -> Flat {
+    let p = PAYLOADS[p];
+    Flat { total: p.total, obs: p.obs, last: p.last, inner: Inner { inner_count: p.inner } }
+}
+fn plain(p: usize) -> Plain {
+    let p = PAYLOADS[p];
+    Plain { total: p.total, obs: p.obs, last: p.last }
+}
+fn direct(k: usize, p: usize) -> Direct {
+    let p = PAYLOADS[p];
+    let (n, s) = NAME_SHARD[k];
+    Direct { name: n.to_string(), shard: s, total: p.total, obs: p.obs, last: p.last, inner: InnerD { inner_count: p.inner } }
+}
+
+// ---------------------------------------------------------------------------------------------
+// normalised view of an emitted aggregate + the reference fold
+// ---------------------------------------------------------------------------------------------
+
+#[derive(Clone, Debug, PartialEq, Eq, Hash, PartialOrd, Ord)]
+struct Agg {
+    key: String,
+    total: u64,
+    /// sorted multiset of observations
+    obs: Vec<u64>,
+    last: Option<u64>,
+    inner: Option<u64>,
+}
+impl Agg {
+    fn json(&self) -> Json {
+        json!({"key": self.key, "total": self.total, "obs": self.obs, "last": self.last, "inner": self.inner})
+    }
+}
+
+#[derive(Clone, Copy, PartialEq, Eq)]
+enum KeyKind {
+    None,
+    Name,
+    NameShard,
+}
+
+/// one observable output of a sink kind
+#[derive(Clone, Copy)]
+struct Branch {
+    name: &'static str,
+    key: KeyKind,
+    has_inner: bool,
+    /// unaggregated pass-through (NonAggregatedSink / insert_and_send_to): one entry per input, in order
+    raw: bool,
+    const_hash: bool,
+    /// class names
+    family: Family,
+}
+#[derive(Clone, Copy, PartialEq, Eq)]
+enum Family {
+    Plain,
+    Tee,
+    Worker,
+    Guard,
+}
+
+impl Branch {
+    fn key_label(&self, k: usize) -> String {
+        match self.key {
+            KeyKind::None => String::new(),
+            KeyKind::Name => NAMES[k].to_string(),
+            KeyKind::NameShard => format!("{}#{}", NAME_SHARD[k].0, NAME_SHARD[k].1),
+        }
+    }
+    fn lost_class(&self) -> String {
+        match self.family {
+            Family::Tee => format!("tee:branch-missed-input:{}", self.name),
+            Family::Guard => format!("merge-on-drop:lost:{}", self.name),
+            _ => format!("{}:lost-input", self.name),
+        }
+    }
+    fn merged_class(&self) -> String {
+        if self.const_hash {
+            format!("{}:hash-collision-merged-distinct-keys", self.name)
+        } else {
+            format!("{}:merged-distinct-keys", self.name)
+        }
+    }
+}
+
+fn observations(d: &[Observation]) -> Result<Vec<u64>, String> {
+    let mut out = Vec::new();
+    let mut push = |f: f64, n: u64| {
+        if f < 0.0 || f.fract() != 0.0 || f > 1e15 {
+            return Err(format!("non-integral observation {f}"));
+        }
+        for _ in 0..n {
+            out.push(f as u64);
+        }
+        Ok(())
+    };
+    for o in d {
+        match o {
+            Observation::Unsigned(v) => push(*v as f64, 1)?,
+            Observation::Floating(f) => push(*f, 1)?,
+            Observation::Repeated { total, occurrences } => {
+                if *occurrences == 0 {
+                    return Err("Repeated with 0 occurrences".into());
+                }
+                push(*total / *occurrences as f64, *occurrences)?
+            }
+            _ => return Err("unknown observation kind".into()),
+        }
+    }
+    out.sort();
+    Ok(out)
+}
+
+fn single(e: &TestEntry, name: &str) -> Result<Option<u64>, String> {
+    match e.metrics.get(name) {
+        None => Ok(None),
+        Some(m) => {
+            let v = observations(&m.distribution)?;
+            if v.len() != 1 {
+                return Err(format!("metric {name} has {} observations, expected a scalar", v.len()));
+            }
+            Ok(Some(v[0]))
+        }
+    }
+}
+
+fn decode(b: &Branch, e: &TestEntry) -> Result<Agg, String> {
+    let key = match b.key {
+        KeyKind::None => String::new(),
+        KeyKind::Name => e.values.get("name").ok_or("no `name` value on the aggregate")?.clone(),
+        KeyKind::NameShard => format!(
+            "{}#{}",
+            e.values.get("name").ok_or("no `name` value on the aggregate")?,
+            e.values.get("shard").ok_or("no `shard` value on the aggregate")?
+        ),
+    };
+    let total = single(e, "total")?.ok_or("no `total` metric")?;
+    let obs = match e.metrics.get("obs") {
+        None => Vec::new(),
+        Some(m) => observations(&m.distribution)?,
+    };
+    let last = single(e, "last")?;
+    let inner = single(e, "inner_count")?;
+    if b.has_inner != inner.is_some() {
+        return Err(format!("inner_count present={} expected present={}", inner.is_some(), b.has_inner));
+    }
+    Ok(Agg { key, total, obs, last, inner })
+}
+
+/// reference fold, straight from the statement: per key, sum / multiset / last
+fn reference(b: &Branch, seg: &[(u8, u8)]) -> BTreeMap<String, Agg> {
+    let mut m: BTreeMap<String, Agg> = BTreeMap::new();
+    for &(k, p) in seg {
+        let key = b.key_label(k as usize);
+        let p = PAYLOADS[p as usize];
+        let a = m.entry(key.clone()).or_insert_with(|| Agg { key, total: 0, obs: vec![], last: None, inner: b.has_inner.then_some(0) });
+        a.total += p.total;
+        a.obs.push(p.obs);
+        a.last = Some(p.last);
+        if let Some(i) = a.inner.as_mut() {
+            *i += p.inner;
+        }
+    }
+    for a in m.values_mut() {
+        a.obs.sort();
+    }
+    m
+}
+
+// ---------------------------------------------------------------------------------------------
+// drivers: the real sinks
+// ---------------------------------------------------------------------------------------------
+
+trait Driver {
+    fn branches(&self) -> &'static [Branch];
+    /// what an empty flush emits is not determined by the statement for these (un-keyed) kinds
+    fn empty_flush_undetermined(&self) -> bool {
+        false
+    }
+    fn merge(&mut self, k: usize, p: usize);
+    /// flush; per branch, everything the downstream sink received since the previous call
+    fn flush(&mut self) -> Vec<Vec<TestEntry>>;
+    /// worker only: wait and look again (to tell "flush completed early" from "lost")
+    fn late(&mut self) -> Option<Vec<Vec<TestEntry>>> {
+        None
+    }
+}
+
+/// reads what a `test_entry_sink()` inspector received since the last read
+struct Tap {
+    insp: Inspector,
+    seen: usize,
+}
+impl Tap {
+    fn new(insp: Inspector) -> Tap {
+        Tap { insp, seen: 0 }
+    }
+    fn take(&mut self) -> Vec<TestEntry> {
+        let mut all = self.insp.entries();
+        let new = all.split_off(self.seen.min(all.len()));
+        self.seen += new.len();
+        new
+    }
+}
+
+const fn br(name: &'static str, key: KeyKind, has_inner: bool) -> Branch {
+    Branch { name, key, has_inner, raw: false, const_hash: false, family: Family::Plain }
+}
+
+// --- embedded Aggregate (no key): insert; "flush" = close the parent entry -------------------
+struct Embedded {
+    parent: Option<Parent>,
+}
+impl Embedded {
+    fn new() -> Self {
+        Embedded { parent: Some(Parent { agg: Aggregate::default(), id: "p" }) }
+    }
+}
+impl Driver for Embedded {
+    fn branches(&self) -> &'static [Branch] {
+        const B: [Branch; 1] = [br("embedded", KeyKind::None, true)];
+        &B
+    }
+    fn empty_flush_undetermined(&self) -> bool {
+        true
+    }
+    fn merge(&mut self, _k: usize, p: usize) {
+        self.parent.as_mut().unwrap().agg.insert(flat(p));
+    }
+    fn flush(&mut self) -> Vec<Vec<TestEntry>> {
+        let p = self.parent.replace(Parent { agg: Aggregate::default(), id: "p" }).unwrap();
+        vec![vec![test_metric(p)]]
+    }
+}
+
+// --- embedded Aggregate, insert_and_send_to: merged by reference AND passed on raw -----------
+struct EmbeddedSendTo {
+    parent: Option<ParentPlain>,
+    raw_sink: metrique::writer::BoxEntrySink,
+    raw: Tap,
+}
+impl EmbeddedSendTo {
+    fn new() -> Self {
+        let t = test_entry_sink();
+        EmbeddedSendTo { parent: Some(ParentPlain { agg: Aggregate::default(), id: "p" }), raw_sink: t.sink, raw: Tap::new(t.inspector) }
+    }
+}
+impl Driver for EmbeddedSendTo {
+    fn branches(&self) -> &'static [Branch] {
+        const B: [Branch; 2] = [
+            br("embedded-send-to", KeyKind::None, false),
+            Branch { name: "embedded-send-to-raw", key: KeyKind::None, has_inner: false, raw: true, const_hash: false, family: Family::Tee },
+        ];
+        &B
+    }
+    fn empty_flush_undetermined(&self) -> bool {
+        true
+    }
+    fn merge(&mut self, _k: usize, p: usize) {
+        self.parent.as_mut().unwrap().agg.insert_and_send_to(plain(p), &self.raw_sink);
+    }
+    fn flush(&mut self) -> Vec<Vec<TestEntry>> {
+        let p = self.parent.replace(ParentPlain { agg: Aggregate::default(), id: "p" }).unwrap();
+        vec![vec![test_metric(p)], self.raw.take()]
+    }
+}
+
+// --- KeyedAggregator, generic over the strategy ----------------------------------------------
+struct Keyed<T: AggregateStrategy, const REF: bool> {
+    agg: KeyedAggregator<T>,
+    tap: Tap,
+    make: fn(usize, usize) -> T::Source,
+    b: &'static [Branch],
+}
+impl<T, const REF: bool> Keyed<T, REF>
+where
+    T: AggregateStrategy,
+    <T::Source as metrique_aggregation::traits::Merge>::MergeConfig: Default,
+    metrique::writer::BoxEntrySink: metrique_writer::EntrySink<AggregatedEntry<T>>,
+{
+    fn new(make: fn(usize, usize) -> T::Source, b: &'static [Branch]) -> Self {
+        let t = test_entry_sink();
+        Keyed { agg: KeyedAggregator::new(t.sink), tap: Tap::new(t.inspector), make, b }
+    }
+}
+impl<T> Driver for Keyed<T, false>
+where
+    T: AggregateStrategy,
+    KeyedAggregator<T>: AggregateSink<T::Source> + FlushableSink,
+{
+    fn branches(&self) -> &'static [Branch] {
+        self.b
+    }
+    fn merge(&mut self, k: usize, p: usize) {
+        self.agg.merge((self.make)(k, p));
+    }
+    fn flush(&mut self) -> Vec<Vec<TestEntry>> {
+        self.agg.flush();
+        vec![self.tap.take()]
+    }
+}
+impl<T> Driver for Keyed<T, true>
+where
+    T: AggregateStrategy,
+    KeyedAggregator<T>: AggregateSinkRef<T::Source> + FlushableSink,
+{
+    fn branches(&self) -> &'static [Branch] {
+        self.b
+    }
+    fn merge(&mut self, k: usize, p: usize) {
+        let e = (self.make)(k, p);
+        self.agg.merge_ref(&e);
+    }
+    fn flush(&mut self) -> Vec<Vec<TestEntry>> {
+        self.agg.flush();
+        vec![self.tap.take()]
+    }
+}
+const B_KEYED: [Branch; 1] = [br("keyed", KeyKind::Name, false)];
+const B_KEYED_REF: [Branch; 1] = [br("keyed-ref", KeyKind::Name, false)];
+const B_KEYED_STR: [Branch; 1] = [br("keyed-borrowed-str-key", KeyKind::Name, false)];
+const B_KEYED_CONST: [Branch; 1] =
+    [Branch { name: "keyed-const-hash", key: KeyKind::Name, has_inner: false, raw: false, const_hash: true, family: Family::Plain }];
+const B_KEYED_DIRECT: [Branch; 1] = [br("keyed-direct-two-key-fields", KeyKind::NameShard, true)];
+
+// --- MutexSink<Aggregate>: RootSink::merge through a clone; "flush" = close --------------------
+struct Mutexed {
+    sink: MutexSink<Aggregate<Flat>>,
+    n: usize,
+}
+impl Driver for Mutexed {
+    fn branches(&self) -> &'static [Branch] {
+        const B: [Branch; 1] = [br("mutex", KeyKind::None, true)];
+        &B
+    }
+    fn empty_flush_undetermined(&self) -> bool {
+        true
+    }
+    fn merge(&mut self, _k: usize, p: usize) {
+        self.n += 1;
+        // alternate between the two public ways in
+        if self.n % 2 == 0 {
+            RootSink::merge(&self.sink, flat(p).close());
+        } else {
+            drop(flat(p).close_and_merge(self.sink.clone()));
+        }
+    }
+    fn flush(&mut self) -> Vec<Vec<TestEntry>> {
+        // closing one handle takes the accumulated state; the other handles keep working
+        vec![vec![test_metric(ParentMx { agg: self.sink.clone(), id: "p" })]]
+    }
+}
+
+// --- TeeSink: by-ref branch, owned branch (constant-hash key), raw pass-through ---------------
+type TeeInner<SA, SB, SR> = TeeSink<KeyedAggregator<Rec, SA>, TeeSink<KeyedAggregator<ByCollide, SB>, metrique_aggregation::sink::NonAggregatedSink<SR>>>;
+struct Tee {
+    tee: TeeInner<metrique::writer::BoxEntrySink, metrique::writer::BoxEntrySink, metrique::writer::BoxEntrySink>,
+    a: Tap,
+    b: Tap,
+    raw: Tap,
+}
+impl Tee {
+    fn new() -> Self {
+        let (a, b, r) = (test_entry_sink(), test_entry_sink(), test_entry_sink());
+        Tee {
+            tee: TeeSink::new(KeyedAggregator::<Rec>::new(a.sink), TeeSink::new(KeyedAggregator::<ByCollide>::new(b.sink), non_aggregate(r.sink))),
+            a: Tap::new(a.inspector),
+            b: Tap::new(b.inspector),
+            raw: Tap::new(r.inspector),
+        }
+    }
+}
+const B_TEE: [Branch; 3] = [
+    Branch { name: "tee-by-ref-branch", key: KeyKind::Name, has_inner: false, raw: false, const_hash: false, family: Family::Tee },
+    Branch { name: "tee-owned-branch", key: KeyKind::Name, has_inner: false, raw: false, const_hash: true, family: Family::Tee },
+    Branch { name: "tee-raw-branch", key: KeyKind::Name, has_inner: false, raw: true, const_hash: false, family: Family::Tee },
+];
+impl Driver for Tee {
+    fn branches(&self) -> &'static [Branch] {
+        &B_TEE
+    }
+    fn merge(&mut self, k: usize, p: usize) {
+        self.tee.merge(rec(k, p).close());
+    }
+    fn flush(&mut self) -> Vec<Vec<TestEntry>> {
+        self.tee.flush();
+        vec![self.a.take(), self.b.take(), self.raw.take()]
+    }
+}
+
+// --- WorkerSink driven from one thread; ONE long-lived instance per checker thread ------------
+type VSink<T> = VecEntrySink<AggregatedEntry<T>>;
+type RawSink = VecEntrySink<metrique::RootEntry<RecEntry>>;
+struct WorkerRig {
+    sink: WorkerSink<RecEntry, TeeInner<VSink<Rec>, VSink<ByCollide>, RawSink>>,
+    a: VSink<Rec>,
+    b: VSink<ByCollide>,
+    raw: RawSink,
+    dsink: WorkerSink<Direct, KeyedAggregator<Direct, VSink<Direct>>>,
+    d: VSink<Direct>,
+}
+/// the timer must never fire during a run
+const NEVER: Duration = Duration::from_secs(7 * 24 * 3600);
+impl WorkerRig {
+    fn new() -> Self {
+        let (a, b, raw, d) = (VSink::<Rec>::new(), VSink::<ByCollide>::new(), RawSink::new(), VSink::<Direct>::new());
+        let tee = TeeSink::new(KeyedAggregator::<Rec, _>::new(a.clone()), TeeSink::new(KeyedAggregator::<ByCollide, _>::new(b.clone()), non_aggregate(raw.clone())));
+        WorkerRig {
+            sink: WorkerSink::new(tee, NEVER),
+            a,
+            b,
+            raw,
+            dsink: WorkerSink::new(KeyedAggregator::<Direct, _>::new(d.clone()), NEVER),
+            d,
+        }
+    }
+    fn drain_rec(&self) -> Vec<Vec<TestEntry>> {
+        vec![
+            self.a.drain().iter().map(to_test_entry).collect(),
+            self.b.drain().iter().map(to_test_entry).collect(),
+            self.raw.drain().iter().map(to_test_entry).collect(),
+        ]
+    }
+}
+const B_WORKER: [Branch; 3] = [
+    Branch { name: "worker", key: KeyKind::Name, has_inner: false, raw: false, const_hash: false, family: Family::Worker },
+    Branch { name: "worker-tee-const-hash-branch", key: KeyKind::Name, has_inner: false, raw: false, const_hash: true, family: Family::Worker },
+    Branch { name: "worker-tee-raw-branch", key: KeyKind::Name, has_inner: false, raw: true, const_hash: false, family: Family::Worker },
+];
+struct Worker<'a> {
+    rig: &'a WorkerRig,
+}
+impl Driver for Worker<'_> {
+    fn branches(&self) -> &'static [Branch] {
+        &B_WORKER
+    }
+    fn merge(&mut self, k: usize, p: usize) {
+        self.rig.sink.send(rec(k, p).close());
+    }
+    fn flush(&mut self) -> Vec<Vec<TestEntry>> {
+        futures::executor::block_on(self.rig.sink.flush());
+        // right after the await: everything sent before must already be downstream
+        self.rig.drain_rec()
+    }
+    fn late(&mut self) -> Option<Vec<Vec<TestEntry>>> {
+        std::thread::sleep(Duration::from_millis(100));
+        Some(self.rig.drain_rec())
+    }
+}
+
+// --- merge-on-drop guards ------------------------------------------------------------------------
+/// `CloseAndMergeOnDrop` guards into a MutexSink; `merge` = drop the next guard in the drop order
+struct GuardMutex {
+    sink: MutexSink<Aggregate<Flat>>,
+    guards: Vec<Option<CloseAndMergeOnDrop<Flat, MutexSink<Aggregate<Flat>>>>>,
+    order: Vec<usize>,
+    next: usize,
+}
+const B_GUARD_MUTEX: [Branch; 1] =
+    [Branch { name: "close-and-merge-on-drop-into-mutex", key: KeyKind::None, has_inner: true, raw: false, const_hash: false, family: Family::Guard }];
+impl Driver for GuardMutex {
+    fn branches(&self) -> &'static [Branch] {
+        &B_GUARD_MUTEX
+    }
+    fn empty_flush_undetermined(&self) -> bool {
+        true
+    }
+    fn merge(&mut self, _k: usize, _p: usize) {
+        let g = self.guards[self.order[self.next]].take().expect("guard dropped twice by the harness");
+        self.next += 1;
+        drop(g);
+    }
+    fn flush(&mut self) -> Vec<Vec<TestEntry>> {
+        vec![vec![test_metric(ParentMx { agg: self.sink.clone(), id: "p" })]]
+    }
+}
+
+/// `CloseAndMergeOnDrop` (entry mode) guards into the shared WorkerSink
+struct GuardWorkerRec<'a> {
+    rig: &'a WorkerRig,
+    guards: Vec<Option<CloseAndMergeOnDrop<Rec, WorkerSink<RecEntry, TeeInner<VSink<Rec>, VSink<ByCollide>, RawSink>>>>>,
+    order: Vec<usize>,
+    next: usize,
+}
+const B_GUARD_WORKER_REC: [Branch; 3] = [
+    Branch { name: "close-and-merge-on-drop-into-worker", key: KeyKind::Name, has_inner: false, raw: false, const_hash: false, family: Family::Guard },
+    Branch { name: "close-and-merge-on-drop-into-worker-const-hash-branch", key: KeyKind::Name, has_inner: false, raw: false, const_hash: true, family: Family::Guard },
+    Branch { name: "close-and-merge-on-drop-into-worker-raw-branch", key: KeyKind::Name, has_inner: false, raw: true, const_hash: false, family: Family::Guard },
+];
+impl Driver for GuardWorkerRec<'_> {
+    fn branches(&self) -> &'static [Branch] {
+        &B_GUARD_WORKER_REC
+    }
+    fn merge(&mut self, _k: usize, _p: usize) {
+        let g = self.guards[self.order[self.next]].take().expect("guard dropped twice by the harness");
+        self.next += 1;
+        drop(g);
+    }
+    fn flush(&mut self) -> Vec<Vec<TestEntry>> {
+        futures::executor::block_on(self.rig.sink.flush());
+        self.rig.drain_rec()
+    }
+    fn late(&mut self) -> Option<Vec<Vec<TestEntry>>> {
+        std::thread::sleep(Duration::from_millis(100));
+        Some(self.rig.drain_rec())
+    }
+}
+
+/// `MergeOnDrop` (direct mode, two key fields, Flatten) guards into the shared direct WorkerSink
+struct GuardWorkerDirect<'a> {
+    rig: &'a WorkerRig,
+    guards: Vec<Option<MergeOnDrop<Direct, WorkerSink<Direct, KeyedAggregator<Direct, VSink<Direct>>>>>>,
+    order: Vec<usize>,
+    next: usize,
+}
+const B_GUARD_WORKER_DIRECT: [Branch; 1] =
+    [Branch { name: "merge-on-drop-into-worker", key: KeyKind::NameShard, has_inner: true, raw: false, const_hash: false, family: Family::Guard }];
+impl Driver for GuardWorkerDirect<'_> {
+    fn branches(&self) -> &'static [Branch] {
+        &B_GUARD_WORKER_DIRECT
+    }
+    fn merge(&mut self, _k: usize, _p: usize) {
+        let g = self.guards[self.order[self.next]].take().expect("guard dropped twice by the harness");
+        self.next += 1;
+        drop(g);
+    }
+    fn flush(&mut self) -> Vec<Vec<TestEntry>> {
+        futures::executor::block_on(self.rig.dsink.flush());
+        vec![self.rig.d.drain().iter().map(to_test_entry).collect()]
+    }
+    fn late(&mut self) -> Option<Vec<Vec<TestEntry>>> {
+        std::thread::sleep(Duration::from_millis(100));
+        Some(vec![self.rig.d.drain().iter().map(to_test_entry).collect()])
+    }
+}
+
+// ---------------------------------------------------------------------------------------------
+// running one history against one driver, with the oracle
+// ---------------------------------------------------------------------------------------------
+
+#[derive(Default)]
+struct St {
+    histories: u64,
+    runs: u64,
+    transitions: u64,
+    flushes_checked: u64,
+    aggregates_checked: u64,
+    skipped_undetermined: u64,
+    v: Violations,
+    outcomes: HashSet<u64>,
+    per_sink: BTreeMap<&'static str, u64>,
+    samples: Vec<Json>,
+}
+
+struct Hist<'a> {
+    /// inputs in the order they reach the sink
+    inputs: &'a [(u8, u8)],
+    /// bit i set: flush after input i (i < n-1); a final flush always follows
+    mask: u32,
+    /// extra context for the replay file (guard histories)
+    extra: Option<Json>,
+}
+impl Hist<'_> {
+    fn json(&self, b: &Branch) -> Json {
+        let n = self.inputs.len();
+        let mut j = json!({
+            "sink": b.name,
+            "inputs_in_merge_order": self.inputs.iter().map(|&(k, p)| json!([b.key_label(k as usize), p])).collect::<Vec<_>>(),
+            "payloads": PAYLOADS.iter().map(|p| json!({"total": p.total, "obs": p.obs, "last": p.last, "inner": p.inner})).collect::<Vec<_>>(),
+            "flush_after_input": (0..n).filter(|i| *i + 1 == n || self.mask >> i & 1 == 1).collect::<Vec<_>>(),
+        });
+        if let Some(e) = &self.extra {
+            j["guards"] = e.clone();
+        }
+        j
+    }
+}
+
+fn check_flush(st: &mut St, b: &Branch, h: &Hist, flush_no: usize, seg: &[(u8, u8)], got: &[TestEntry], earlier: &[Agg]) -> (Vec<Agg>, Option<String>) {
+    st.flushes_checked += 1;
+    let mut decoded = Vec::new();
+    let mut first_class: Option<String> = None;
+    let mut report = |st: &mut St, class: String, what: String, decoded: &[Agg], expected: Json| {
+        let mut j = h.json(b);
+        j["at_flush_number"] = json!(flush_no);
+        j["segment"] = json!(seg.iter().map(|&(k, p)| json!([b.key_label(k as usize), p])).collect::<Vec<_>>());
+        j["expected"] = expected;
+        j["emitted"] = json!(decoded.iter().map(|a| a.json()).collect::<Vec<_>>());
+        st.v.add(class.clone(), format!("{}: {what}", b.name), j);
+        if first_class.is_none() {
+            first_class = Some(class);
+        }
+    };
+    for e in got {
+        match decode(b, e) {
+            Ok(a) => decoded.push(a),
+            Err(why) => {
+                report(st, format!("{}:malformed-aggregate", b.name), format!("emitted entry cannot be read back: {why} ({e:?})"), &[], json!(null));
+                return (decoded, first_class);
+            }
+        }
+    }
+    st.aggregates_checked += decoded.len() as u64;
+    if b.raw {
+        // unaggregated pass-through: exactly the inputs, in order
+        let want: Vec<Agg> = seg
+            .iter()
+            .map(|&(k, p)| {
+                let p = PAYLOADS[p as usize];
+                Agg { key: b.key_label(k as usize), total: p.total, obs: vec![p.obs], last: Some(p.last), inner: None }
+            })
+            .collect();
+        if decoded != want {
+            let class = if decoded.len() < want.len() { b.lost_class() } else { format!("{}:raw-entries-wrong", b.name) };
+            report(st, class, format!("pass-through branch received {} entries for {} inputs or different contents", decoded.len(), want.len()), &decoded, json!(want.iter().map(|a| a.json()).collect::<Vec<_>>()));
+        }
+        return (decoded, first_class);
+    }
+    let want = reference(b, seg);
+    let want_json = json!(want.values().map(|a| a.json()).collect::<Vec<_>>());
+    let mut by_key: BTreeMap<&str, Vec<&Agg>> = BTreeMap::new();
+    for a in &decoded {
+        by_key.entry(a.key.as_str()).or_default().push(a);
+    }
+    // one aggregate per distinct key
+    if let Some((k, v)) = by_key.iter().find(|(_, v)| v.len() > 1) {
+        report(st, format!("{}:two-aggregates-for-one-key", b.name), format!("{} aggregates for key {k:?} in one flush", v.len()), &decoded, want_json.clone());
+    }
+    let sum_got: u64 = decoded.iter().map(|a| a.total).sum();
+    let sum_want: u64 = want.values().map(|a| a.total).sum();
+    let cnt_got: usize = decoded.iter().map(|a| a.obs.len()).sum();
+    let missing: Vec<&String> = want.keys().filter(|k| !by_key.contains_key(k.as_str())).collect();
+    let extra: Vec<&&str> = by_key.keys().filter(|k| !want.contains_key(**k)).collect();
+    if !missing.is_empty() {
+        if sum_got == sum_want && cnt_got == seg.len() && extra.is_empty() {
+            report(st, b.merged_class(), format!("no aggregate for key(s) {missing:?}, but their inputs were folded into another key's aggregate"), &decoded, want_json.clone());
+        } else {
+            report(st, b.lost_class(), format!("no aggregate emitted for key(s) {missing:?} merged since the previous flush"), &decoded, want_json.clone());
+        }
+    }
+    if !extra.is_empty() {
+        let stale = decoded.iter().any(|a| extra.iter().any(|k| **k == a.key) && earlier.contains(a));
+        let class = if stale { format!("{}:aggregate-emitted-again-after-flush", b.name) } else { format!("{}:aggregate-for-key-not-merged", b.name) };
+        report(st, class, format!("aggregate(s) for key(s) {extra:?} that received no input since the previous flush"), &decoded, want_json.clone());
+    }
+    for (k, w) in &want {
+        let Some(g) = by_key.get(k.as_str()).and_then(|v| v.first()) else { continue };
+        if g.total != w.total {
+            report(st, format!("sum-wrong:{}", b.name), format!("key {k:?}: Sum field is {} but the inputs add up to {}", g.total, w.total), &decoded, want_json.clone());
+        }
+        if g.obs != w.obs {
+            let class = if g.obs.len() != w.obs.len() { "distribution-count-wrong" } else { "distribution-values-wrong" };
+            report(st, format!("{class}:{}", b.name), format!("key {k:?}: distribution holds {:?}, the inputs' observations are {:?}", g.obs, w.obs), &decoded, want_json.clone());
+        }
+        if g.last != w.last {
+            report(st, format!("keep-last-wrong:{}", b.name), format!("key {k:?}: KeepLast field is {:?}, the last input had {:?}", g.last, w.last), &decoded, want_json.clone());
+        }
+        if g.inner != w.inner {
+            report(st, format!("flatten-wrong:{}", b.name), format!("key {k:?}: flattened inner Sum is {:?}, expected {:?}", g.inner, w.inner), &decoded, want_json.clone());
+        }
+    }
+    decoded.sort();
+    let mut hs = DefaultHasher::new();
+    (b.key as u8 as u64, b.has_inner, &decoded).hash(&mut hs);
+    st.outcomes.insert(hs.finish());
+    (decoded, first_class)
+}
+
+impl Hash for KeyKind {
+    fn hash<H: Hasher>(&self, state: &mut H) {
+        (*self as u8).hash(state)
+    }
+}
+
+fn run(st: &mut St, d: &mut dyn Driver, h: &Hist) {
+    let branches = d.branches();
+    let n = h.inputs.len();
+    if n == 0 && d.empty_flush_undetermined() {
+        st.skipped_undetermined += 1;
+        return;
+    }
+    st.runs += 1;
+    *st.per_sink.entry(branches[0].name).or_default() += 1;
+    let mut seg_start = 0;
+    let mut flush_no = 0;
+    let mut emitted: Vec<Vec<Agg>> = vec![Vec::new(); branches.len()];
+    let mut do_flush = |st: &mut St, d: &mut dyn Driver, seg: &[(u8, u8)], flush_no: usize| {
+        let got = d.flush();
+        st.transitions += 1;
+        assert_eq!(got.len(), branches.len());
+        let mut lost = false;
+        for (bi, b) in branches.iter().enumerate() {
+            let (dec, class) = check_flush(st, b, h, flush_no, seg, &got[bi], &emitted[bi]);
+            if class.is_some() {
+                lost = true;
+            }
+            emitted[bi].extend(dec);
+        }
+        if lost {
+            // worker kinds: did the missing aggregates arrive AFTER flush().await returned?
+            if let Some(late) = d.late() {
+                for (bi, b) in branches.iter().enumerate() {
+                    if !late[bi].is_empty() {
+                        let mut j = h.json(b);
+                        j["at_flush_number"] = json!(flush_no);
+                        j["arrived_after_the_await"] = json!(late[bi].len());
+                        st.v.add(
+                            "worker:flush-completed-early",
+                            format!("{}: flush().await returned before {} entries sent before it reached the downstream sink", b.name, late[bi].len()),
+                            j,
+                        );
+                        for e in &late[bi] {
+                            if let Ok(a) = decode(b, e) {
+                                emitted[bi].push(a);
+                            }
+                        }
+                    }
+                }
+            }
+        }
+    };
+    if n == 0 {
+        do_flush(st, d, &[], 0);
+    }
+    for i in 0..n {
+        let (k, p) = h.inputs[i];
+        d.merge(k as usize, p as usize);
+        st.transitions += 1;
+        if i + 1 == n || h.mask >> i & 1 == 1 {
+            do_flush(st, d, &h.inputs[seg_start..=i], flush_no);
+            flush_no += 1;
+            seg_start = i + 1;
+        }
+    }
+    // conservation over the whole history: every input in exactly one emitted aggregate
+    let sum_in: u64 = h.inputs.iter().map(|&(_, p)| PAYLOADS[p as usize].total).sum();
+    for (bi, b) in branches.iter().enumerate() {
+        let sum_out: u64 = emitted[bi].iter().map(|a| a.total).sum();
+        let cnt_out: usize = emitted[bi].iter().map(|a| a.obs.len()).sum();
+        if sum_out != sum_in || cnt_out != n {
+            let mut j = h.json(b);
+            j["emitted_over_all_flushes"] = json!(emitted[bi].iter().map(|a| a.json()).collect::<Vec<_>>());
+            let class = if sum_out < sum_in || cnt_out < n { "inputs-lost-overall" } else { "inputs-counted-more-than-once" };
+            st.v.add(
+                format!("{}:conservation:{class}", b.name),
+                format!("{}: over the whole history the aggregates carry sum {sum_out} / {cnt_out} observations, the inputs sum {sum_in} / {n} observations", b.name),
+                j,
+            );
+        }
+    }
+    if st.samples.len() < 2 && n >= 3 && h.mask != 0 && branches[0].key != KeyKind::None {
+        let mut j = h.json(&branches[0]);
+        j["emitted_over_all_flushes"] = json!(emitted[0].iter().map(|a| a.json()).collect::<Vec<_>>());
+        st.samples.push(j);
+    }
+}
+
+// ---------------------------------------------------------------------------------------------
+// enumeration
+// ---------------------------------------------------------------------------------------------
+
+/// all (inputs, flush mask) with `min_len..=max_len` inputs over `nk` keys x 3 payloads
+struct Space {
+    nk: u64,
+    min_len: u32,
+    max_len: u32,
+}
+impl Space {
+    fn count_len(&self, n: u32) -> u64 {
+        if n == 0 { 1 } else { (self.nk * 3).pow(n) * (1u64 << (n - 1)) }
+    }
+    fn total(&self) -> u64 {
+        (self.min_len..=self.max_len).map(|n| self.count_len(n)).sum()
+    }
+    fn decode(&self, mut idx: u64, inputs: &mut Vec<(u8, u8)>) -> u32 {
+        let mut n = self.min_len;
+        while idx >= self.count_len(n) {
+            idx -= self.count_len(n);
+            n += 1;
+        }
+        inputs.clear();
+        let a = self.nk * 3;
+        for _ in 0..n {
+            let d = idx % a;
+            idx /= a;
+            inputs.push(((d / 3) as u8, (d % 3) as u8));
+        }
+        idx as u32 // the flush mask
+    }
+}
+
+fn permutations(n: usize) -> Vec<Vec<usize>> {
+    fn rec(cur: &mut Vec<usize>, used: &mut Vec<bool>, out: &mut Vec<Vec<usize>>) {
+        if cur.len() == used.len() {
+            out.push(cur.clone());
+            return;
+        }
+        for i in 0..used.len() {
+            if !used[i] {
+                used[i] = true;
+                cur.push(i);
+                rec(cur, used, out);
+                cur.pop();
+                used[i] = false;
+            }
+        }
+    }
+    let mut out = Vec::new();
+    rec(&mut Vec::new(), &mut vec![false; n], &mut out);
+    out
+}
+
+fn merge_state(into: &mut St, s: St) {
+    into.histories += s.histories;
+    into.runs += s.runs;
+    into.transitions += s.transitions;
+    into.flushes_checked += s.flushes_checked;
+    into.aggregates_checked += s.aggregates_checked;
+    into.skipped_undetermined += s.skipped_undetermined;
+    into.v.merge(s.v);
+    into.outcomes.extend(s.outcomes);
+    for (k, n) in s.per_sink {
+        *into.per_sink.entry(k).or_default() += n;
+    }
+    for x in s.samples {
+        if into.samples.len() < 4 {
+            into.samples.push(x);
+        }
+    }
+}
+
+struct WSt {
+    st: St,
+    rig: WorkerRig,
+    guard_histories: u64,
+}
+
 fn main() {
-    let ts = test_entry_sink();
-    let mut agg = KeyedAggregator::<Coll>::new(ts.sink);
-    agg.merge(Coll { name: CName("a".into()), total: 1, obs: 5, last: 9 }.close());
-    agg.merge(Coll { name: CName("b".into()), total: 2, obs: 5, last: 9 }.close());
-    agg.flush();
-    println!("{:#?}", ts.inspector.entries());
+    let mut rep = Report::from_args("C10", "model_checking");
+    let tier = rep.tier;
+    let mut all = St::default();
+
+    // ---- phase 1: in-thread sinks --------------------------------------------------------------
+    // 3 keys up to `len3`; the longest length with 2 keys (thorough)
+    let len3: u32 = tier.pick(4, 5);
+    let mut spaces = vec![Space { nk: 3, min_len: 0, max_len: len3 }];
+    if tier.pick(false, true) {
+        spaces.push(Space { nk: 2, min_len: 6, max_len: 6 });
+    }
+    let mut depth = 0;
+    for sp in &spaces {
+        depth = depth.max(sp.max_len);
+        let states = par::for_each_index(sp.total(), 64, St::default, |st, idx| {
+            let mut inputs = Vec::new();
+            let mask = sp.decode(idx, &mut inputs);
+            let h = Hist { inputs: &inputs, mask, extra: None };
+            st.histories += 1;
+            run(st, &mut Embedded::new(), &h);
+            run(st, &mut EmbeddedSendTo::new(), &h);
+            run(st, &mut Keyed::<Rec, false>::new(|k, p| rec(k, p).close(), &B_KEYED), &h);
+            run(st, &mut Keyed::<Rec, true>::new(|k, p| rec(k, p).close(), &B_KEYED_REF), &h);
+            run(st, &mut Keyed::<ByStr, false>::new(|k, p| rec(k, p).close(), &B_KEYED_STR), &h);
+            run(st, &mut Keyed::<Coll, false>::new(|k, p| coll(k, p).close(), &B_KEYED_CONST), &h);
+            run(st, &mut Keyed::<Direct, false>::new(direct, &B_KEYED_DIRECT), &h);
+            run(st, &mut Mutexed { sink: MutexSink::new(Aggregate::default()), n: 0 }, &h);
+            run(st, &mut Tee::new(), &h);
+        });
+        for s in states {
+            merge_state(&mut all, s);
+        }
+    }
+    let phase1_histories = all.histories;
+    let t_phase1 = rep.start.elapsed().as_secs_f64();
+
+    // ---- phase 2: merge-on-drop guards into a MutexSink, every drop order -----------------------
+    // n guards are created up front (payload index = input), a subset of them is created with a
+    // different payload and overwritten through DerefMut, then they are dropped in every
+    // permutation with every subset of flushes between the drops
+    let gmax: usize = tier.pick(3, 4);
+    let mut guard_histories = 0u64;
+    for n in 1..=gmax {
+        let perms = permutations(n);
+        let seqs = 3u64.pow(n as u32);
+        let masks = 1u64 << (n - 1);
+        let muts = 1u64 << n;
+        let total = seqs * perms.len() as u64 * masks * muts;
+        let states = par::for_each_index(total, 64, St::default, |st, idx| {
+            let mut d = [0u64; 4];
+            par::decode(idx, &[seqs, perms.len() as u64, masks, muts], &mut d);
+            let ps: Vec<u8> = (0..n).map(|i| ((d[0] / 3u64.pow(i as u32)) % 3) as u8).collect();
+            let order = perms[d[1] as usize].clone();
+            let sink = MutexSink::new(Aggregate::<Flat>::default());
+            let guards = (0..n)
+                .map(|i| {
+                    if d[3] >> i & 1 == 1 {
+                        let mut g = flat((ps[i] as usize + 1) % 3).close_and_merge(sink.clone());
+                        let p = PAYLOADS[ps[i] as usize];
+                        g.total = p.total;
+                        g.obs = p.obs;
+                        g.last = p.last;
+                        g.inner.inner_count = p.inner;
+                        Some(g)
+                    } else {
+                        Some(flat(ps[i] as usize).close_and_merge(sink.clone()))
+                    }
+                })
+                .collect();
+            let inputs: Vec<(u8, u8)> = order.iter().map(|&g| (0, ps[g])).collect();
+            let h = Hist { inputs: &inputs, mask: d[2] as u32, extra: Some(json!({"created": ps, "drop_order": order, "overwritten_through_deref_mut": d[3]})) };
+            st.histories += 1;
+            run(st, &mut GuardMutex { sink, guards, order, next: 0 }, &h);
+        });
+        for s in states {
+            guard_histories += s.histories;
+            merge_state(&mut all, s);
+        }
+    }
+
+    let t_phase2 = rep.start.elapsed().as_secs_f64();
+    // ---- phase 3: WorkerSink driven sequentially; one long-lived pair of instances per thread ---
+    let wlen: u32 = tier.pick(4, 5);
+    let wsp = Space { nk: 3, min_len: 0, max_len: wlen };
+    let wg: usize = tier.pick(3, 4);
+    // guards into the workers: all input sequences of length <= wg over 2 keys, every drop order,
+    // every flush subset; guards with an odd index are created with another key AND payload and
+    // overwritten through DerefMut before the first drop
+    let mut gw_total = 0u64;
+    let mut gw_index: Vec<(usize, u64)> = Vec::new(); // (n, count)
+    for n in 1..=wg {
+        let c = 6u64.pow(n as u32) * permutations(n).len() as u64 * (1u64 << (n - 1));
+        gw_index.push((n, c));
+        gw_total += c;
+    }
+    let perms_by_n: Vec<Vec<Vec<usize>>> = (0..=wg).map(permutations).collect();
+    let wtotal = wsp.total();
+    let done = par::for_each_index(
+        wtotal + gw_total,
+        16,
+        || WSt { st: St::default(), rig: WorkerRig::new(), guard_histories: 0 },
+        |w, idx| {
+            if idx < wtotal {
+                let mut inputs = Vec::new();
+                let mask = wsp.decode(idx, &mut inputs);
+                let h = Hist { inputs: &inputs, mask, extra: None };
+                w.st.histories += 1;
+                run(&mut w.st, &mut Worker { rig: &w.rig }, &h);
+                return;
+            }
+            let mut idx = idx - wtotal;
+            let mut n = 0;
+            for &(nn, c) in &gw_index {
+                if idx < c {
+                    n = nn;
+                    break;
+                }
+                idx -= c;
+            }
+            let perms = &perms_by_n[n];
+            let mut d = [0u64; 3];
+            par::decode(idx, &[6u64.pow(n as u32), perms.len() as u64, 1u64 << (n - 1)], &mut d);
+            let kp: Vec<(u8, u8)> = (0..n)
+                .map(|i| {
+                    let x = (d[0] / 6u64.pow(i as u32)) % 6;
+                    ((x / 3) as u8, (x % 3) as u8)
+                })
+                .collect();
+            let order = perms[d[1] as usize].clone();
+            let inputs: Vec<(u8, u8)> = order.iter().map(|&g| kp[g]).collect();
+            let extra = json!({"created": kp, "drop_order": order, "overwritten_through_deref_mut": "guards with odd index"});
+            let h = Hist { inputs: &inputs, mask: d[2] as u32, extra: Some(extra) };
+            w.guard_histories += 1;
+            w.st.histories += 1;
+            // entry mode: CloseAndMergeOnDrop<Rec, WorkerSink<..>>
+            let guards = (0..n)
+                .map(|i| {
+                    let (k, p) = (kp[i].0 as usize, kp[i].1 as usize);
+                    if i % 2 == 1 {
+                        let mut g = rec((k + 1) % 2, (p + 1) % 3).close_and_merge(w.rig.sink.clone());
+                        let want = rec(k, p);
+                        g.name = want.name;
+                        g.total = want.total;
+                        g.obs = want.obs;
+                        g.last = want.last;
+                        Some(g)
+                    } else {
+                        Some(rec(k, p).close_and_merge(w.rig.sink.clone()))
+                    }
+                })
+                .collect();
+            run(&mut w.st, &mut GuardWorkerRec { rig: &w.rig, guards, order: order.clone(), next: 0 }, &h);
+            // direct mode: MergeOnDrop<Direct, WorkerSink<..>>
+            let guards = (0..n)
+                .map(|i| {
+                    let (k, p) = (kp[i].0 as usize, kp[i].1 as usize);
+                    if i % 2 == 1 {
+                        let mut g = direct((k + 1) % 2, (p + 1) % 3).merge(w.rig.dsink.clone());
+                        let want = direct(k, p);
+                        g.name = want.name;
+                        g.shard = want.shard;
+                        g.total = want.total;
+                        g.obs = want.obs;
+                        g.last = want.last;
+                        g.inner.inner_count = want.inner.inner_count;
+                        Some(g)
+                    } else {
+                        Some(direct(k, p).merge(w.rig.dsink.clone()))
+                    }
+                })
+                .collect();
+            run(&mut w.st, &mut GuardWorkerDirect { rig: &w.rig, guards, order, next: 0 }, &h);
+        },
+    );
+    let (mut worker_guard_histories, mut worker_histories, mut worker_instances) = (0u64, 0u64, 0u64);
+    let mut wall_states = Vec::new();
+    for w in done {
+        worker_guard_histories += w.guard_histories;
+        worker_histories += w.st.histories - w.guard_histories;
+        worker_instances += 2;
+        let WSt { st, rig, .. } = w;
+        merge_state(&mut all, st);
+        wall_states.push(rig); // kept alive until exit: a dropped WorkerSink leaves a spinning thread behind
+    }
+
+    let St { histories, runs, transitions, flushes_checked, aggregates_checked, skipped_undetermined, v, outcomes, per_sink, samples } = all;
+    rep.violations.merge(v);
+    rep.set("states", histories);
+    rep.set("transitions", transitions);
+    rep.set("traces_validated_against_impl", runs);
+    rep.set("distinct_outcomes", outcomes.len() as u64);
+    rep.set("flushes_checked", flushes_checked);
+    rep.set("aggregates_checked", aggregates_checked);
+    rep.set("skipped_undetermined", skipped_undetermined);
+    rep.set("histories_in_thread_sinks", phase1_histories);
+    rep.set("histories_guards_into_mutex", guard_histories);
+    rep.set("histories_worker", worker_histories);
+    rep.set("histories_guards_into_worker", worker_guard_histories);
+    rep.set("worker_sink_instances_created", worker_instances);
+    rep.set("runs_per_sink_kind", json!(per_sink));
+    let t_phase3 = rep.start.elapsed().as_secs_f64();
+    rep.set("phase_wall_s", json!({"in_thread_sinks": t_phase1, "guards_into_mutex": t_phase2 - t_phase1, "worker_and_guards_into_worker": t_phase3 - t_phase2}));
+    rep.set("depth", depth as u64);
+    rep.set("exhaustive", true);
+    rep.set(
+        "bounds",
+        json!({
+            "in_thread_sinks": spaces.iter().map(|s| json!({"keys": s.nk, "payloads": 3, "min_inputs": s.min_len, "max_inputs": s.max_len, "flush_points": "every subset between inputs + final"})).collect::<Vec<_>>(),
+            "guards_into_mutex": {"payloads": 3, "max_guards": gmax, "drop_orders": "all permutations", "flush_points": "every subset between drops + final", "overwritten_through_deref_mut": "every subset"},
+            "worker": {"keys": wsp.nk, "payloads": 3, "max_inputs": wlen, "flush_points": "every subset between sends + final"},
+            "guards_into_worker": {"keys": 2, "payloads": 3, "max_guards": wg, "drop_orders": "all permutations", "flush_points": "every subset between drops + final"},
+        }),
+    );
+    rep.set("explanation", "a state = one history (input sequence over keys x payloads, a subset of flush points between inputs, a final flush; for guards also the drop order). Every history is replayed on every real sink kind; at every flush the entries that reached the downstream test sink are decoded and compared with a reference fold of the inputs merged since the previous flush (one aggregate per distinct key; Sum = sum; distribution = sorted multiset of observations; KeepLast = last; flattened inner Sum); over the whole history the totals and observation counts must equal those of the inputs. distinct_outcomes = distinct (sorted) sets of aggregates emitted by one flush.");
+    for s in samples {
+        rep.sample(s);
+    }
+    rep.sample(json!({"sink": "keyed-const-hash", "inputs_in_merge_order": [["a", 0], ["b", 1], ["a", 2]], "flush_after_input": [2], "expected": [{"key": "a", "total": 5, "obs": [5, 5], "last": 300}, {"key": "b", "total": 2, "obs": [7], "last": 200}]}));
+    rep.assume("the WorkerSink flush interval is 7 days, so the timed flush never fires during a run; worker histories are driven from one thread (send.., flush().await via futures::executor::block_on) - interleavings are the loom part's job");
+    rep.assume("one WorkerSink pair per checker thread is reused for all worker histories (every history ends with a flush, leaving it empty) and kept alive until exit; thread termination after the last handle is dropped is NOT asserted here");
+    rep.assume("what an un-keyed sink (embedded Aggregate, MutexSink close) emits for a flush with no inputs is not determined by the statement: the empty history is skipped for those kinds and counted in skipped_undetermined");
+    rep.assume("the embedded Aggregate is consumed by closing its parent entry, so each flush segment uses a fresh Aggregate; MutexSink keeps one shared state across closes (close takes the state through a clone of the handle)");
+    rep.assume("entries emitted by one flush come out of a hash map: compared as a set keyed by the key value, not by order");
+    std::mem::forget(wall_states);
+    rep.finish();
 }
